@@ -6,6 +6,7 @@
 -/
 import Ark.Props.C07
 import Ark.Proofs.GenBridge.BookPool
+import Ark.Proofs.GenBridge.BookLock
 
 namespace Ark.Props.C07Src
 open Ark
@@ -20,5 +21,29 @@ theorem src_bitPool_recycle : type_of% @Ark.GenBridge.Book.bitPool_recycle_eq :=
 /-- `bitPool.Reset` as in the source = the model's (all three counters cleared) -/
 theorem src_bitPool_reset : type_of% @Ark.GenBridge.Book.bitPool_reset_eq := @Ark.GenBridge.Book.bitPool_reset_eq
 
+
+/-! ### The code itself: lock.go, translated on every run over the translated pool.go and the word-level mask64.go -/
+
+/-- `newLock()` is the model's initial lock -/
+theorem src_newLock : type_of% @Ark.GenBridge.Book.newLock_eq := @Ark.GenBridge.Book.newLock_eq
+/-- `Lock()` as in the source = the model's `Lock.lock` (bit from the pool, panic at 64, set in the mask) -/
+theorem src_lock : type_of% @Ark.GenBridge.Book.lock_eq := @Ark.GenBridge.Book.lock_eq
+/-- `Unlock(b)` as in the source = the model's (panic unless the bit is set; cleared and recycled) -/
+theorem src_unlock : type_of% @Ark.GenBridge.Book.unlock_eq := @Ark.GenBridge.Book.unlock_eq
+/-- the `…Safe` variants are the plain ones between the mutex calls -/
+theorem src_lockSafe : type_of% @Ark.GenBridge.Book.lockSafe_eq := @Ark.GenBridge.Book.lockSafe_eq
+theorem src_unlockSafe : type_of% @Ark.GenBridge.Book.unlockSafe_eq := @Ark.GenBridge.Book.unlockSafe_eq
+/-- `IsLocked()` — what `checkLocked` reads — as in the source = the model's -/
+theorem src_isLocked : type_of% @Ark.GenBridge.Book.isLocked_eq := @Ark.GenBridge.Book.isLocked_eq
+/-- `Reset()` as in the source = the model's -/
+theorem src_lock_reset : type_of% @Ark.GenBridge.Book.reset_eq := @Ark.GenBridge.Book.reset_eq
+/-- **every lock history**: the translated lock.go run from `newLock()` is the model's lock after any
+    sequence of `Lock()`, `Unlock(b)`, `Reset()` — the hypotheses of `src_lock` hold on every state reached -/
+theorem src_lock_histories : type_of% @Ark.GenBridge.Book.run_eq := @Ark.GenBridge.Book.run_eq
+
+/-- non-vacuity: a history that locks three times, unlocks the middle bit and locks again re-uses that bit,
+    in the translated source as in the model -/
+example : (Ark.GenBridge.Book.toLock ([Lock.Op.lock, .lock, .lock, .unlock 1, .lock].foldl Ark.GenBridge.Book.gstep
+    Ark.Generated.Book.newLock)).locks = 7#64 := by decide
 
 end Ark.Props.C07Src
